@@ -10,6 +10,9 @@
 //       written order is the documented base-types-first order and that every DW_AT_sibling points just
 //       behind the subtree of its entry,
 //   (c) prints `err <Variant>` when gimli refuses the request.
+// Stream c11.conv additionally reads the written sections, converts them (write::Dwarf::convert) and writes the
+// units one at a time through ConvertUnit::write (all / none / a subset chosen by a mask) before the final
+// Dwarf::write; the oracle (b) is applied to both outputs (`stage1-…` / `incremental-readback-mismatch …`).
 use crate::dump::{self, diff_classes};
 use crate::util::*;
 use gimli::write::{
@@ -54,6 +57,16 @@ enum Val {
     Konst(usize, u64), // 0 Encoding 1 DecimalSign 2 Endianity 3 Accessibility 4 Visibility 5 Virtuality
     // 6 Language 7 AddressClass 8 IdentifierCase 9 CallingConvention 10 Inline 11 Ordering
     File(Option<usize>),
+    // an expression built through write::Expression with one reference to a DIE of any unit:
+    // kind 0 DW_OP_call_ref, 1 DW_OP_implicit_pointer, 2 DW_OP_GNU_variable_value; (kind, unit, entry index)
+    ExprRef(usize, usize, usize),
+}
+
+/// the expression of a location list entry: raw bytes or one reference operation (see Val::ExprRef)
+#[derive(Clone, Debug)]
+enum XD {
+    Raw(Vec<u8>),
+    Ref(usize, usize, usize),
 }
 
 #[derive(Clone, Debug)]
@@ -63,7 +76,7 @@ enum Op {
     Str(Vec<u8>),
     LStr(Vec<u8>),
     Rng { u: usize, base: u64, pairs: Vec<(u64, u64)> },
-    Loc { u: usize, base: u64, pairs: Vec<(u64, u64, Vec<u8>)> },
+    Loc { u: usize, base: u64, pairs: Vec<(u64, u64, XD)> },
     Add { u: usize, parent: usize, tag: u16 },
     Reserve { u: usize },
     AddReserved { u: usize, child: usize, parent: usize, tag: u16 },
@@ -140,6 +153,7 @@ fn parse_val(t: &mut Toks) -> Result<Val, String> {
         "ls" => Val::LStr(t.us()?),
         "str" => Val::String(t.hex()?),
         "k" => Val::Konst(t.us()?, t.u64()?),
+        "xr" => Val::ExprRef(t.us()?, t.us()?, t.us()?),
         "fi" => {
             let x = t.i64()?;
             Val::File(if x < 0 { None } else { Some(x as usize) })
@@ -183,7 +197,18 @@ fn parse(t: &[&str]) -> Result<Vec<Op>, String> {
                 let n = t.us()?;
                 let mut pairs = Vec::new();
                 for _ in 0..n {
-                    pairs.push((t.u64()?, t.u64()?, t.hex()?));
+                    pairs.push((t.u64()?, t.u64()?, XD::Raw(t.hex()?)));
+                }
+                Op::Loc { u, base, pairs }
+            }
+            "P" => {
+                // location list whose expressions are single reference operations: (begin end kind unit entry)*
+                let u = t.us()?;
+                let base = t.u64()?;
+                let n = t.us()?;
+                let mut pairs = Vec::new();
+                for _ in 0..n {
+                    pairs.push((t.u64()?, t.u64()?, XD::Ref(t.us()?, t.us()?, t.us()?)));
                 }
                 Op::Loc { u, base, pairs }
             }
@@ -216,14 +241,16 @@ struct IEntry {
     children: Vec<usize>,
 }
 
+#[derive(Clone)]
 struct IUnit {
     enc: Encoding,
     lp: Option<(Encoding, usize)>,
     entries: Vec<IEntry>, // indexed by id index; reserved-but-unadded ones have tag 0
     ranges: Vec<(u64, Vec<(u64, u64)>)>,           // by call number
-    locs: Vec<(u64, Vec<(u64, u64, Vec<u8>)>)>,    // by call number
+    locs: Vec<(u64, Vec<(u64, u64, XD)>)>,        // by call number
 }
 
+#[derive(Clone)]
 struct Intent {
     units: Vec<IUnit>,
     strs: Vec<Vec<u8>>,  // by call number
@@ -290,6 +317,10 @@ struct Interp {
     loc_ids: Vec<Vec<write::LocationListId>>,
     file_ids: Vec<Vec<write::FileId>>,
     sections: Sections<EndianVec<RunTimeEndian>>,
+}
+
+fn ref_byte_offset(i: usize) -> i64 {
+    (i as i64) * 5 - 3
 }
 
 fn mk_line_program(lp: &(Encoding, usize)) -> (LineProgram, Vec<write::FileId>) {
@@ -379,7 +410,20 @@ impl Interp {
             },
             Val::File(None) => WV::FileIndex(None),
             Val::File(Some(k)) => WV::FileIndex(Some(*self.file_ids[u].get(*k).ok_or("bad-script file-id")?)),
+            Val::ExprRef(kind, tu, i) => WV::Exprloc(self.ref_expr(*kind, *tu, *i)?),
         })
+    }
+
+    fn ref_expr(&self, kind: usize, tu: usize, i: usize) -> Result<Expression, String> {
+        let uid = *self.unit_ids.get(tu).ok_or("bad-script unit-id")?;
+        let r = DebugInfoRef::Entry(uid, self.eid(tu, i)?);
+        let mut e = Expression::new();
+        match kind {
+            0 => e.op_call_ref(r),
+            1 => e.op_implicit_pointer(r, ref_byte_offset(i)),
+            _ => e.op_variable_value(r),
+        }
+        Ok(e)
     }
 
     fn write_units(&mut self) -> Result<(), write::Error> {
@@ -488,7 +532,11 @@ fn interpret(ops: &[Op], mode: usize, endian: RunTimeEndian) -> Result<Result<(I
             Op::Loc { u, base, pairs } => {
                 let mut l = vec![Location::BaseAddress { address: Address::Constant(*base) }];
                 for (b, e, x) in pairs {
-                    l.push(Location::OffsetPair { begin: *b, end: *e, data: Expression::raw(x.clone()) });
+                    let data = match x {
+                        XD::Raw(x) => Expression::raw(x.clone()),
+                        XD::Ref(kind, tu, i) => it.ref_expr(*kind, *tu, *i)?,
+                    };
+                    l.push(Location::OffsetPair { begin: *b, end: *e, data });
                 }
                 let id = it.unit_mut(*u)?.locations.add(LocationList(l));
                 it.loc_ids[*u].push(id);
@@ -589,6 +637,15 @@ fn konst_text(kind: usize, x: u64) -> String {
 }
 
 /// (unit, entry index) -> "@u:i" with i = position in the normalised preorder; None = not in the tree
+fn ref_expr_text(intent: &Intent, pos: &Vec<HashMap<usize, usize>>, kind: usize, tu: usize, i: usize) -> String {
+    let r = ref_text(intent, pos, tu, i);
+    match kind {
+        0 => format!("Call({})", r),
+        1 => format!("ImplicitPointer({},{})", r, ref_byte_offset(i)),
+        _ => format!("VariableValue({})", r),
+    }
+}
+
 fn ref_text(intent: &Intent, pos: &Vec<HashMap<usize, usize>>, u: usize, i: usize) -> String {
     match pos.get(u).and_then(|m| m.get(&i)) {
         Some(k) => format!("@{}:{}", u, k),
@@ -655,7 +712,11 @@ fn predict(intent: &Intent, endian: RunTimeEndian, crossver: bool) -> Vec<String
                         let (base, pairs) = &u.locs[*k];
                         let mut s = String::from("locs:");
                         for (b, e, x) in pairs.iter().filter(|p| p.0 != p.1) {
-                            s.push_str(&format!("[{:#x},{:#x}){{{}}}", base + b, base + e, expr_text(x, u.enc, endian)));
+                            let xt = match x {
+                                XD::Raw(x) => expr_text(x, u.enc, endian),
+                                XD::Ref(kind, tu, i) => ref_expr_text(intent, &pos, *kind, *tu, *i),
+                            };
+                            s.push_str(&format!("[{:#x},{:#x}){{{}}}", base + b, base + e, xt));
                         }
                         s
                     }
@@ -675,6 +736,7 @@ fn predict(intent: &Intent, endian: RunTimeEndian, crossver: bool) -> Vec<String
                     Val::LStr(k) => format!("str:{}", dump::hex(&intent.lstrs[*k])),
                     Val::String(b) => format!("str:{}", dump::hex(b)),
                     Val::Konst(kind, x) => konst_text(*kind, *x),
+                    Val::ExprRef(kind, tu, k) => format!("expr:{}", ref_expr_text(intent, &pos, *kind, *tu, *k)),
                     Val::File(f) => {
                         // the reader resolves a file index through the unit's line program (present iff in use)
                         if !in_use {
@@ -832,6 +894,100 @@ fn readable(intent: &Intent) -> bool {
     intent.units.iter().all(|u| matches!(u.enc.address_size, 1 | 2 | 4 | 8))
 }
 
+/// semantic oracle: the dump of the written sections is the dump predicted from the script; written order and
+/// sibling pointers are the documented ones. None = agreement.
+fn oracle(intent: &Intent, secs: &HashMap<SectionId, Vec<u8>>, endian: RunTimeEndian) -> Option<String> {
+    if !readable(intent) {
+        return None;
+    }
+    let d = load(secs, endian);
+    let actual = match dump::dump_dwarf(&d, false) {
+        Ok(a) => a,
+        Err(x) => return Some(format!("readback-mismatch reread:{}", x.replace(' ', "_"))),
+    };
+    let expected = predict(intent, endian, false);
+    let diff = diff_classes(&expected, &actual);
+    if !diff.is_empty() {
+        // (the defect repaired by c92c4f4 stays recognisable: a mutant reverting it is named)
+        if diff_classes(&predict(intent, endian, true), &actual).is_empty() {
+            return Some("readback-mismatch crossver-file".to_string());
+        }
+        return Some(format!("readback-mismatch {}", diff));
+    }
+    if let Err(x) = check_base_types_first(intent, &d) {
+        return Some(format!("readback-mismatch {}", x.replace(' ', "_")));
+    }
+    if let Err(x) = check_layout(intent, &d) {
+        return Some(format!("readback-mismatch {}", x.replace(' ', "_")));
+    }
+    None
+}
+
+/// the same meaning with the units in the order `perm` (perm[k] = old index of the unit written k-th)
+fn permute(intent: &Intent, perm: &[usize]) -> Intent {
+    let mut inv = vec![0usize; perm.len()];
+    for (k, &o) in perm.iter().enumerate() {
+        inv[o] = k;
+    }
+    let mv = |v: &Val| -> Val {
+        match v {
+            Val::UnitRef(iu, i) => Val::UnitRef(inv[*iu], *i),
+            Val::InfoRef(tu, eu, i) => Val::InfoRef(inv[*tu], inv[*eu], *i),
+            Val::ExprRef(k, tu, i) => Val::ExprRef(*k, inv[*tu], *i),
+            other => other.clone(),
+        }
+    };
+    let units = perm
+        .iter()
+        .map(|&o| {
+            let mut u = intent.units[o].clone();
+            for en in u.entries.iter_mut() {
+                for a in en.attrs.iter_mut() {
+                    a.1 = mv(&a.1);
+                }
+            }
+            for l in u.locs.iter_mut() {
+                for p in l.1.iter_mut() {
+                    if let XD::Ref(k, tu, i) = &p.2 {
+                        p.2 = XD::Ref(*k, inv[*tu], *i);
+                    }
+                }
+            }
+            u
+        })
+        .collect();
+    Intent { units, strs: intent.strs.clone(), lstrs: intent.lstrs.clone() }
+}
+
+/// read `secs`, convert it with write::Dwarf::convert; the k-th unit is written at once through
+/// ConvertUnit::write iff bit k of `mask` is set, the others are left to the final Dwarf::write
+fn convert_incremental(
+    secs: &HashMap<SectionId, Vec<u8>>,
+    endian: RunTimeEndian,
+    mask: u64,
+) -> Result<Sections<EndianVec<RunTimeEndian>>, String> {
+    let rd = load(secs, endian);
+    let mut out = Dwarf::new();
+    let mut sections = Sections::new(EndianVec::new(endian));
+    {
+        let mut conv = out.convert(&rd).map_err(|x| format!("convert:{:?}", x))?;
+        let mut k = 0;
+        loop {
+            let (mut unit, root) = match conv.read_unit().map_err(|x| format!("read_unit:{:?}", x))? {
+                Some(p) => p,
+                None => break,
+            };
+            unit.convert(root, &|a| Some(Address::Constant(a))).map_err(|x| format!("convert_unit:{:?}", x))?;
+            if (mask >> (k % 60)) & 1 == 1 {
+                unit.write(&mut sections).map_err(|x| format!("unit_write:{}", err(&x)))?;
+            }
+            k += 1;
+        }
+    }
+    out.write(&mut sections).map_err(|x| format!("final_write:{}", err(&x)))?;
+    Ok(sections)
+}
+
 pub fn run(t: &[&str]) -> String {
     match t[0] {
         "c11.units" | "c11.sem" | "c11.misuse" => {
@@ -852,27 +1008,8 @@ pub fn run(t: &[&str]) -> String {
             let secs = section_bytes(&it.sections);
             let get = |id: SectionId| -> String { tohex(secs.get(&id).map(|v| &v[..]).unwrap_or(&[])) };
             // (b) semantic oracle
-            if readable(&intent) {
-                let d = load(&secs, endian);
-                let actual = match dump::dump_dwarf(&d, false) {
-                    Ok(a) => a,
-                    Err(x) => return format!("readback-mismatch reread:{}", x.replace(' ', "_")),
-                };
-                let expected = predict(&intent, endian, false);
-                let diff = diff_classes(&expected, &actual);
-                if !diff.is_empty() {
-                    // (the defect repaired by c92c4f4 stays recognisable: a mutant reverting it is named)
-                    if diff_classes(&predict(&intent, endian, true), &actual).is_empty() {
-                        return "readback-mismatch crossver-file".to_string();
-                    }
-                    return format!("readback-mismatch {}", diff);
-                }
-                if let Err(x) = check_base_types_first(&intent, &d) {
-                    return format!("readback-mismatch {}", x.replace(' ', "_"));
-                }
-                if let Err(x) = check_layout(&intent, &d) {
-                    return format!("readback-mismatch {}", x.replace(' ', "_"));
-                }
+            if let Some(x) = oracle(&intent, &secs, endian) {
+                return x;
             }
             if t[0] == "c11.sem" {
                 let n: usize = intent.units.iter().map(|u| u.order(true).len()).sum();
@@ -885,6 +1022,43 @@ pub fn run(t: &[&str]) -> String {
                 get(SectionId::DebugStr),
                 get(SectionId::DebugLineStr)
             )
+        }
+        "c11.conv" => {
+            // c11.conv <be> <mask> ops…: the script is written with Dwarf::write (stage 1, oracle), read back and
+            // converted unit by unit; unit k goes out at once through ConvertUnit::write iff bit k of mask is set,
+            // the rest with the final Dwarf::write (stage 2, oracle again: every reference must still hit its DIE)
+            if t.len() < 3 {
+                return "bad-script header".into();
+            }
+            let endian = endian(t[1]);
+            let mask: u64 = t[2].parse().unwrap_or(0);
+            let ops = match parse(&t[3..]) {
+                Ok(o) => o,
+                Err(x) => return x.replace(' ', "_"),
+            };
+            let (intent, it) = match interpret(&ops, 0, endian) {
+                Err(x) => return x.replace(' ', "_"),
+                Ok(Err(x)) => return format!("ok {}", err(&x)),
+                Ok(Ok(p)) => p,
+            };
+            let secs = section_bytes(&it.sections);
+            if let Some(x) = oracle(&intent, &secs, endian) {
+                return format!("stage1-{}", x);
+            }
+            let sections2 = match convert_incremental(&secs, endian, mask) {
+                Ok(s) => s,
+                Err(x) => return format!("convert-err {}", x.replace(' ', "_")),
+            };
+            let n = intent.units.len();
+            let mut perm: Vec<usize> = (0..n).filter(|k| (mask >> (k % 60)) & 1 == 1).collect();
+            perm.extend((0..n).filter(|k| (mask >> (k % 60)) & 1 == 0));
+            let intent2 = permute(&intent, &perm);
+            let secs2 = section_bytes(&sections2);
+            if let Some(x) = oracle(&intent2, &secs2, endian) {
+                return format!("incremental-{}", x);
+            }
+            let n: usize = intent.units.iter().map(|u| u.order(true).len()).sum();
+            format!("ok same {}", n)
         }
         "c11.form" => {
             // c11.form <version> <fmt64> <asz> <value…>: AttributeValue::form
